@@ -1,5 +1,6 @@
 import Driver.Loop
 import AlphaG.Driver.C06
+import AlphaG.Driver.C07
 import AlphaG.Driver.C19
 /-
 Full model driver: every handler of `AlphaG/Driver/*.lean`. Handlers return `none` for
@@ -7,5 +8,6 @@ commands they do not own.
 -/
 def main : IO Unit := Driver.run [
   AlphaG.Driver.C06.handle,
+  AlphaG.Driver.C07.handle,
   AlphaG.Driver.C19.handle
 ]
